@@ -202,3 +202,33 @@ Proof.
   exact (conj check_delta_status_is_the_tree (conj tie_cds_future (conj tie_cds_compat (conj tie_cds_from_nonzero tie_cds_newer)))).
 Qed.
 Print Assumptions C04_admission_guards_are_the_source_guards.
+
+Theorem C04_write_guards_are_the_source_guards :
+  (forall c k v, set_versioned_value c k v =
+     let mx := g_svv_max (v_ver v) (c_max c) in
+     let ev := if is_deleted v then [] else [(k, v_val v)] in
+     match kget k (c_kvs c) with
+     | Some old =>
+         if g_svv_older (v_ver old) (v_ver v)
+         then (mkCopy (c_hb c) (c_gc c) mx (c_kvs c), [])
+         else (mkCopy (c_hb c) (c_gc c) mx (kinsert k v (c_kvs c)), ev)
+     | None => (mkCopy (c_hb c) (c_gc c) mx (kinsert k v (c_kvs c)), ev)
+     end) /\
+  (forall now current_max acc m, apply_kv now current_max acc m =
+     let '(c, evs) := acc in
+     if g_apply_known (m_ver m) current_max then acc
+     else if mscheduled (m_st m) && g_apply_collected (m_ver m) (c_gc c) then acc
+     else
+       let '(c', ev) := set_versioned_value c (m_key m) (mkVV (m_val m) (m_ver m) (into_status (m_st m) now)) in
+       (c', evs ++ ev)) /\
+  (forall ver cmax, rs_svv_max ver cmax = g_svv_max ver cmax) /\
+  ((forall old ver, rs_svv_older old ver = g_svv_older old ver) \/ (forall old ver, rs_svv_older old ver = negb (g_svv_older old ver))) /\
+  ((forall ver cmax cgc, rs_apply_known ver cmax cgc = g_apply_known ver cmax) \/
+   (forall ver cmax cgc, rs_apply_known ver cmax cgc = negb (g_apply_known ver cmax))) /\
+  ((forall ver cmax cgc, rs_apply_collected ver cmax cgc = g_apply_collected ver cgc) \/
+   (forall ver cmax cgc, rs_apply_collected ver cmax cgc = negb (g_apply_collected ver cgc))).
+Proof.
+  exact (conj set_versioned_value_is_the_tree (conj apply_kv_is_the_tree (conj tie_svv_max (conj tie_svv_older
+          (conj tie_apply_known tie_apply_collected))))).
+Qed.
+Print Assumptions C04_write_guards_are_the_source_guards.
